@@ -122,6 +122,10 @@ class Facts:
         c = const_value(e)
         if c is not None:
             return truth_of(c)
+        if isinstance(e, (ast.BoolOp, ast.Compare)):
+            whole = self.atom_of(e)  # a compound test tracked as one atom (keeps "A and B is false" without a disjunction domain)
+            if whole is not None and whole in env:
+                return truth_of(env[whole])
         if isinstance(e, ast.UnaryOp) and isinstance(e.op, ast.Not):
             r = self.eval(e.operand, env)
             return None if r is None else (not r)
@@ -165,6 +169,10 @@ class Facts:
         cur = self.eval(e, env)
         if cur is not None and cur != truth:
             return None
+        if isinstance(e, (ast.BoolOp, ast.Compare)):
+            whole = self.atom_of(e)
+            if whole is not None:
+                env[whole] = 'T' if truth else 'F'
         if isinstance(e, ast.UnaryOp) and isinstance(e.op, ast.Not):
             return self.assume(e.operand, not truth, env)
         if isinstance(e, ast.BoolOp):
